@@ -57,6 +57,45 @@ MODEL_CHARS = {"nosv": "V", "nanos6": "6", "nodes": "D", "mpi": "M", "tampi": "T
 SAMPLE_EVENT = {"nosv": "VSh", "nanos6": "6W[", "nodes": "DR[", "mpi": "MUi", "tampi": "TCi", "openmp": "PBb", "kernel": "KCO"}
 
 
+def _known_codes():
+    known = {}
+    for name, cat in W.CATALOGUE.items():
+        ch = cat["char"]
+        for e in cat["entries"]:
+            known.setdefault(ch, {}).setdefault(e["mcv"][1], set()).add(e["mcv"][2])
+    # events with their own handlers
+    for ch in ("V", "6"):
+        known[ch].setdefault("T", set()).update("cxepr")
+        known[ch].setdefault("Y", set()).update("c")
+    known["V"]["T"].add("C")
+    known["6"]["T"].add("C")        # legacy, accepted with a warning
+    known.setdefault("O", {})
+    known["O"]["H"] = set("xepcwrC")
+    known["O"]["A"] = set("sr")
+    known["O"]["F"] = set("[]")
+    known["O"]["M"] = set("[]=")
+    known["O"]["C"] = set("n")      # legacy, accepted with a warning
+    return known
+
+
+KNOWN_CODES = _known_codes()
+
+
+def unknown_in_known_category(model_char, salt):
+    """An MCV whose model and category exist but whose value is not catalogued
+    (not for the base model's burst / unordered categories, whose value is ignored)."""
+    cats = KNOWN_CODES.get(model_char)
+    if not cats:
+        return None
+    names = sorted(cats)
+    c = names[salt % len(names)]
+    pool = "abcdefghijklmnopqrstuvwxyzABCDEFGHIJKLMNOPQRSTUVWXYZ[]@*=0123456789"
+    free = [v for v in pool if v not in cats[c]]
+    if not free:
+        return None
+    return model_char + c + free[salt % len(free)]
+
+
 def set_path(d, dotted, value, remove=False):
     parts = dotted.split(".")
     cur = d
@@ -105,6 +144,9 @@ def single_corruptions(streams, models, rng, truncation_stride=1):
             if absent:
                 cands.append(("model-not-required", SAMPLE_EVENT[absent[(i + si) % len(absent)]]))
             cands.append(("unknown-event", e.mcv[0] + "~" + "~" if e.mcv[0] != "O" else "O~~"))
+            kc = unknown_in_known_category(e.mcv[0], i + si)
+            if kc:
+                cands.append(("unknown-value-in-known-category", kc))
             cands.append(("unknown-model", "~" + e.mcv[1:]))
             for why, mcv in cands:
                 if e.mcv[0] == "O" and e.mcv[1] in "BU" and why == "unknown-event" and False:
